@@ -89,8 +89,8 @@ Qed.
 Lemma g3_nil i : (0 <? zlen (@nil elem)) && (0 <=? i) && (i <? zlen (@nil elem)) = false.
 Proof. reflexivity. Qed.
 
-Lemma sp_good x : good x = true ->
-  sp x = match rep_of x with SS => SpOk (elems_of x) [] | PP => SpOk [] (elems_of x) end.
+Lemma sp_good w x : good x = true ->
+  sp w x = match rep_of x with SS => SpOk (elems_of x) [] | PP => SpOk [] (elems_of x) end.
 Proof. destruct x as [s|s|r|]; try discriminate; intros _; reflexivity. Qed.
 
 (* ---------- native comparison ---------- *)
@@ -161,10 +161,10 @@ Qed.
 Lemma deref_mkref x r i : deref x (mkref r i) = elem_at (abs x) i.
 Proof. unfold deref, abs. rewrite elem_at_abs. destruct r; reflexivity. Qed.
 
-Lemma get_char x p i : good x = true -> atoi p = Some i ->
-  si_get_to x [p] = Ret (match elem_at (abs x) i with Some _ => Some (mkref (rep_of x) i) | None => None end) None.
+Lemma get_char w x p i : good x = true -> atoi p = Some i ->
+  si_get_to w x [p] = Ret (match elem_at (abs x) i with Some _ => Some (mkref (rep_of x) i) | None => None end) None.
 Proof.
-  intros G Hp. unfold si_get_to. rewrite (sp_good _ G), Hp. unfold abs. rewrite elem_at_abs.
+  intros G Hp. unfold si_get_to. rewrite (sp_good w _ G), Hp. unfold abs. rewrite elem_at_abs.
   set (l := elems_of x).
   destruct (Z.ltb_spec i 0) as [N|N].
   - rewrite (znth_out l i) by lia. destruct (rep_of x); reflexivity.
@@ -175,15 +175,15 @@ Proof.
       destruct (rep_of x); cbv beta iota; rewrite ?g2_nil, (g2_out l i O); reflexivity.
 Qed.
 
-Lemma get_unparsable x p : good x = true -> atoi p = None -> si_get_to x [p] = Ret None (Some EAtoi).
-Proof. intros G Hp. unfold si_get_to. rewrite (sp_good _ G), Hp. destruct (rep_of x); reflexivity. Qed.
+Lemma get_unparsable w x p : good x = true -> atoi p = None -> si_get_to w x [p] = Ret None (Some EAtoi).
+Proof. intros G Hp. unfold si_get_to. rewrite (sp_good w _ G), Hp. destruct (rep_of x); reflexivity. Qed.
 
 (* ---------- Compare ---------- *)
 Lemma compare_char w x c r p i : good x = true -> atoi p = Some i ->
   v_cmp_guard w = true \/ i < zlen (elems_of x) ->
   si_compare w x (op_of c) r [p] = Ret (compare_at (abs x) i c r) None.
 Proof.
-  intros G Hp Hw. unfold si_compare, compare_at. rewrite (sp_good _ G), Hp. unfold abs. rewrite elem_at_abs.
+  intros G Hp Hw. unfold si_compare, compare_at. rewrite (sp_good w _ G), Hp. unfold abs. rewrite elem_at_abs.
   set (l := elems_of x) in *.
   destruct (Z.ltb_spec i 0) as [N|N].
   - rewrite (znth_out l i) by lia. destruct (rep_of x); reflexivity.
@@ -196,14 +196,14 @@ Proof.
 Qed.
 
 Lemma compare_unparsable w x o r p : good x = true -> atoi p = None -> si_compare w x o r [p] = Ret None (Some EAtoi).
-Proof. intros G Hp. unfold si_compare. rewrite (sp_good _ G), Hp. destruct (rep_of x); reflexivity. Qed.
+Proof. intros G Hp. unfold si_compare. rewrite (sp_good w _ G), Hp. destruct (rep_of x); reflexivity. Qed.
 
 
 (* ---------- Length / Capacity ---------- *)
-Lemma length_char x p i : good x = true -> atoi p = Some i ->
-  si_length x [p] = Ret (match length_at (abs x) i with Some z => Wrote z | None => NotWritten end) None.
+Lemma length_char w x p i : good x = true -> atoi p = Some i ->
+  si_length w x [p] = Ret (match length_at (abs x) i with Some z => Wrote z | None => NotWritten end) None.
 Proof.
-  intros G Hp. unfold si_length, length_at. rewrite (sp_good _ G). unfold abs. rewrite elem_at_abs.
+  intros G Hp. unfold si_length, length_at. rewrite (sp_good w _ G). unfold abs. rewrite elem_at_abs.
   set (l := elems_of x).
   destruct (Z.ltb_spec i 0) as [N|N].
   - rewrite (znth_out l i) by lia. cbn [option_map].
@@ -215,14 +215,14 @@ Proof.
       destruct (rep_of x); cbv beta iota; rewrite Hp, ?g3_nil, (g3_out l i) by lia; reflexivity.
 Qed.
 
-Lemma length_unparsable x p : good x = true -> atoi p = None -> si_length x [p] = Ret NotWritten (Some EAtoi).
-Proof. intros G Hp. unfold si_length. rewrite (sp_good _ G). destruct (rep_of x); cbv beta iota; rewrite Hp; reflexivity. Qed.
+Lemma length_unparsable w x p : good x = true -> atoi p = None -> si_length w x [p] = Ret NotWritten (Some EAtoi).
+Proof. intros G Hp. unfold si_length. rewrite (sp_good w _ G). destruct (rep_of x); cbv beta iota; rewrite Hp; reflexivity. Qed.
 
-Lemma capacity_char x p i : good x = true -> atoi p = Some i ->
-  si_capacity x [p] =
+Lemma capacity_char w x p i : good x = true -> atoi p = Some i ->
+  si_capacity w x [p] =
   Ret (match rep_of x, znth (elems_of x) i with PP, Some e => Wrote (e_cap e) | _, _ => NotWritten end) None.
 Proof.
-  intros G Hp. unfold si_capacity. rewrite (sp_good _ G).
+  intros G Hp. unfold si_capacity. rewrite (sp_good w _ G).
   set (l := elems_of x).
   destruct (rep_of x); cbv beta iota; rewrite Hp.
   - rewrite g3_nil. reflexivity.
@@ -233,8 +233,8 @@ Proof.
       * rewrite (znth_out l i), (g3_out l i) by lia. reflexivity.
 Qed.
 
-Lemma capacity_unparsable x p : good x = true -> atoi p = None -> si_capacity x [p] = Ret NotWritten (Some EAtoi).
-Proof. intros G Hp. unfold si_capacity. rewrite (sp_good _ G). destruct (rep_of x); cbv beta iota; rewrite Hp; reflexivity. Qed.
+Lemma capacity_unparsable w x p : good x = true -> atoi p = None -> si_capacity w x [p] = Ret NotWritten (Some EAtoi).
+Proof. intros G Hp. unfold si_capacity. rewrite (sp_good w _ G). destruct (rep_of x); cbv beta iota; rewrite Hp; reflexivity. Qed.
 
 (* ---------- Set ---------- *)
 Lemma good_put_elems x l : good (put_elems x l) = good x.
@@ -248,7 +248,7 @@ Proof. destruct x; reflexivity. Qed.
 Lemma shape_put_elems x l : List.length l = List.length (elems_of x) -> shape (put_elems x l) = shape x.
 Proof. destruct x as [s|s|r|]; cbn; intros H; try reflexivity; rewrite H; reflexivity. Qed.
 
-Lemma sel_own r ptr t : (match r with SS => sel_ss | PP => sel_pp end) (own_text r ptr t) = SelText (t_data t).
+Lemma sel_own w r ptr t : (match r with SS => sel_ss w | PP => sel_pp w end) (own_text r ptr t) = SelText (t_data t).
 Proof. destruct r, ptr; reflexivity. Qed.
 
 (* the full behaviour of Set on a text of the sequence's own representation *)
@@ -259,7 +259,7 @@ Lemma set_char w x ptr t p i nid : good x = true -> atoi p = Some i ->
        then (put_elems x (upd_nth (Z.to_nat i) (buffered nid (t_data t)) (elems_of x)), nid + 1)
        else (x, nid)) None.
 Proof.
-  intros G Hp Hw. unfold si_set_with_buffer. rewrite (sp_good _ G), Hp. unfold abs. rewrite in_range_abs.
+  intros G Hp Hw. unfold si_set_with_buffer. rewrite (sp_good w _ G), Hp. unfold abs. rewrite in_range_abs.
   set (l := elems_of x).
   assert (S : (if v_set_empty w then true else 0 <? zlen (t_data t)) = true).
   { destruct Hw as [-> | Hn]; [reflexivity|]. destruct (v_set_empty w); [reflexivity|].
@@ -268,7 +268,7 @@ Proof.
   - replace (0 <=? i) with false by (symmetry; apply Z.leb_gt; lia). destruct (rep_of x); reflexivity.
   - replace (0 <=? i) with true by (symmetry; apply Z.leb_le; lia). cbn [andb].
     destruct (Z.ltb_spec i (zlen l)) as [I|O].
-    + pose proof (sel_own (rep_of x) ptr t) as So.
+    + pose proof (sel_own w (rep_of x) ptr t) as So.
       destruct (rep_of x); cbv beta iota; rewrite ?g2_nil, (g2_in l i N I); unfold store; rewrite So, S; reflexivity.
     + destruct (rep_of x); cbv beta iota; rewrite ?g2_nil, (g2_out l i O); reflexivity.
 Qed.
@@ -277,7 +277,7 @@ Qed.
 Lemma set_out_of_range w x v p i nid : good x = true -> atoi p = Some i -> in_range (abs x) i = false ->
   si_set_with_buffer w x v [p] nid = Ret (x, nid) None.
 Proof.
-  intros G Hp Hr. unfold si_set_with_buffer. rewrite (sp_good _ G), Hp. unfold abs in Hr. rewrite in_range_abs in Hr.
+  intros G Hp Hr. unfold si_set_with_buffer. rewrite (sp_good w _ G), Hp. unfold abs in Hr. rewrite in_range_abs in Hr.
   set (l := elems_of x) in *.
   destruct (Z.ltb_spec i 0) as [N|N]; [destruct (rep_of x); reflexivity|].
   replace (0 <=? i) with true in Hr by (symmetry; apply Z.leb_le; lia). cbn [andb] in Hr. apply Z.ltb_ge in Hr.
@@ -286,7 +286,7 @@ Qed.
 
 Lemma set_unparsable w x v p nid : good x = true -> atoi p = None ->
   si_set_with_buffer w x v [p] nid = Ret (x, nid) (Some EAtoi).
-Proof. intros G Hp. unfold si_set_with_buffer. rewrite (sp_good _ G), Hp. destruct (rep_of x); reflexivity. Qed.
+Proof. intros G Hp. unfold si_set_with_buffer. rewrite (sp_good w _ G), Hp. destruct (rep_of x); reflexivity. Qed.
 
 Lemma abs_put_upd x i e : good x = true ->
   abs (put_elems x (upd_nth i e (elems_of x))) = upd_nth i (e_data e) (abs x).
@@ -308,10 +308,10 @@ Definition visit_text (x : arg) (v : visit) : string * text_t :=
   (match vi_key v with Some k => k | None => EmptyString end,
    match deref x (vi_val v) with Some t => t | None => [] end).
 
-Lemma loop_char x : good x = true ->
-  si_loop x it_all [] = Ret (loop_from (mkref (rep_of x)) it_all 0 (List.length (elems_of x))) None.
+Lemma loop_char w x : good x = true ->
+  si_loop w x it_all [] = Ret (loop_from (mkref (rep_of x)) it_all 0 (List.length (elems_of x))) None.
 Proof.
-  intros G. unfold si_loop. rewrite (sp_good _ G).
+  intros G. unfold si_loop. rewrite (sp_good w _ G).
   destruct (rep_of x); cbv beta iota; change (0 <? zlen (@nil elem)) with false; cbv iota;
     destruct (elems_of x) as [|e l]; reflexivity.
 Qed.
@@ -333,8 +333,8 @@ Proof.
     apply IH. rewrite <- app_assoc. exact E.
 Qed.
 
-Lemma loop_abs x : good x = true ->
-  exists vs, si_loop x it_all [] = Ret vs None /\ map (visit_text x) vs = loop_all (abs x).
+Lemma loop_abs w x : good x = true ->
+  exists vs, si_loop w x it_all [] = Ret vs None /\ map (visit_text x) vs = loop_all (abs x).
 Proof.
   intros G. eexists. split; [apply loop_char; exact G|].
   exact (loop_visits_suffix x (rep_of x) (elems_of x) [] eq_refl).
@@ -387,7 +387,7 @@ Lemma deq_char w x y : good x = true -> good y = true ->
   v_deq_empty w = true \/ abs x <> [] \/ abs y <> [] ->
   si_deep_equal w x y = Ret (seq_equal (abs x) (abs y)) None.
 Proof.
-  intros Gx Gy Hw. unfold si_deep_equal. rewrite (sp_good _ Gx), (sp_good _ Gy). unfold abs in *.
+  intros Gx Gy Hw. unfold si_deep_equal. rewrite (sp_good w _ Gx), (sp_good w _ Gy). unfold abs in *.
   rewrite seq_equal_abs.
   set (l := elems_of x) in *. set (r := elems_of y) in *.
   assert (E0 : zlen l = 0 -> zlen r = 0 -> v_deq_empty w = true /\ all_eq l r = true).
@@ -434,13 +434,13 @@ Proof.
   cbn [copies] in H. destruct H as [<-|H]; [reflexivity|]. exact (IH _ _ H).
 Qed.
 
-Lemma picked_good x : good x = true ->
-  match sp x with
+Lemma picked_good w x : good x = true ->
+  match sp w x with
   | SpOk ssR ppR => (if 0 <? zlen ssR then ssR else if 0 <? zlen ppR then ppR else []) = elems_of x
   | _ => False
   end.
 Proof.
-  intros G. rewrite (sp_good _ G). destruct (rep_of x); cbv beta iota.
+  intros G. rewrite (sp_good w _ G). destruct (rep_of x); cbv beta iota.
   - destruct (elems_of x); reflexivity.
   - change (0 <? zlen (@nil elem)) with false. cbv iota. destruct (elems_of x); reflexivity.
 Qed.
@@ -456,27 +456,27 @@ Proof. destruct cs; cbn [append_all q_elems]; [rewrite app_nil_r|]; reflexivity.
 Lemma rep_append_all d cs : q_rep (append_all d cs) = q_rep d.
 Proof. destruct cs; reflexivity. Qed.
 
-Lemma copy_to_char src d nid : good src = true ->
-  si_copy_to src (APtr d) nid =
+Lemma copy_to_char w src d nid : good src = true ->
+  si_copy_to w src (APtr d) nid =
   Ret (APtr (append_all d (copies (elems_of src) nid)), nid + zlen (elems_of src)) None.
 Proof.
-  intros G. unfold si_copy_to. pose proof (picked_good _ G) as P.
-  destruct (sp src) as [ssR ppR| |]; try contradiction. rewrite P. destruct (q_rep d); reflexivity.
+  intros G. unfold si_copy_to. pose proof (picked_good w _ G) as P.
+  destruct (sp w src) as [ssR ppR| |]; try contradiction. rewrite P. destruct (q_rep d); reflexivity.
 Qed.
 
-Lemma copy_to_by_value src s nid : good src = true ->
-  si_copy_to src (AVal s) nid = Ret (AVal s, nid) (Some EMustPointer).
+Lemma copy_to_by_value w src s nid : good src = true ->
+  si_copy_to w src (AVal s) nid = Ret (AVal s, nid) (Some EMustPointer).
 Proof.
-  intros G. unfold si_copy_to. rewrite (sp_good _ G). destruct (rep_of src); reflexivity.
+  intros G. unfold si_copy_to. rewrite (sp_good w _ G). destruct (rep_of src); reflexivity.
 Qed.
 
-Lemma copy_char x nid : good x = true ->
-  si_copy x nid = Ret (append_all (nil_sq SS) (copies (elems_of x) nid), nid + zlen (elems_of x)) None.
-Proof. intros G. unfold si_copy. rewrite (copy_to_char _ _ _ G). reflexivity. Qed.
+Lemma copy_char w x nid : good x = true ->
+  si_copy w x nid = Ret (append_all (nil_sq SS) (copies (elems_of x) nid), nid + zlen (elems_of x)) None.
+Proof. intros G. unfold si_copy. rewrite (copy_to_char w _ _ _ G). reflexivity. Qed.
 
 (* ---------- Reset ---------- *)
-Lemma reset_ptr s : si_reset (APtr s) =
+Lemma reset_ptr w s : si_reset w (APtr s) =
   Ret (APtr {| q_rep := q_rep s; q_nil := q_nil s; q_elems := []; q_cap := q_cap s |}) None.
 Proof. reflexivity. Qed.
-Lemma reset_val s : si_reset (AVal s) = Ret (AVal s) (Some EMustPointer).
+Lemma reset_val w s : si_reset w (AVal s) = Ret (AVal s) (Some EMustPointer).
 Proof. reflexivity. Qed.
